@@ -460,7 +460,7 @@ def enum_end_to_end(col, tier, shard, nshards):
     n = 0
     import itertools
 
-    for i, case in enumerate(itertools.chain(c08.recovery_cases(), c08.straddle_cases(tier))):
+    for i, case in enumerate(itertools.chain(c08.recovery_cases(), c08.history_cases(), c08.straddle_cases(tier))):
         if i % nshards != shard:
             continue
         r = c08.run_case(case)
